@@ -171,6 +171,57 @@ def reduceTop (o : Ops α) (n : Nat) (pc q : List α) : Option (List α) :=
     | some c' => if o.eq (c'.getD n o.zero) o.zero then some (c'.take n) else none
   else some (c.take n)
 
+/-- `revq[i] = q[n - i]` for `i < n`, `revq[n]` stays zero -/
+def revTop (o : Ops α) (n : Nat) (q : List α) : List α :=
+  (List.range (n + 1)).map fun i => if i < n then q.getD (n - i) o.zero else o.zero
+
+/-- one round of the loop over the chunks of `a` in `roots_eval`: `pmodq ← (∏_{r ∈ chk}(x - r) · pmodq) mod Q`
+by three `_longmul`s with the precomputed reversed inverse `qinvr` (`q` = the `n + 1` coefficients of `Q`) -/
+def barrettStep (c : Ctx) (o : Ops α) (n : Nat) (q qinvr pmodq chk : List α) : Option (List α) :=
+  match fromRoots c o chk with
+  | none => none
+  | some pi0 =>
+    match reduceTop o n pi0 q with
+    | none => none
+    | some pic =>
+      match longmul c o (2 * n) (6 * n) pic pmodq with
+      | none => none
+      | some pp =>
+        match longmul c o (2 * n) (6 * n) (pp.drop n) (qinvr.drop 1) with
+        | none => none
+        | some quo =>
+          match longmul c o (2 * n) (6 * n) ((quo.drop (n - 1)).take (n - 1)) q with
+          | none => none
+          | some pq =>
+            -- debug_assert!(pp[n..] == pq[n..])
+            if !((List.range n).all fun i =>
+                o.eq (pp.getD (n + i) o.zero) (pq.getD (n + i) o.zero)) then none
+            else zipOp o.sub (pp.take n) (pq.take n)
+
+/-- the branch `a.len() >= n` of `roots_eval`: `∏ (x - a_i)` modulo `Q = ∏ (x - b_j)` (`top` = the `n` low
+coefficients of the monic top node of the tree over `b`), chunk by chunk, then `_multi_eval` -/
+def rootsEvalLong (c : Ctx) (o : Ops α) (tree : List (List (List α))) (top a : List α) : Option (List α) :=
+  let n := top.length
+  let q := top ++ [o.one]
+  let revq := revTop o n q
+  match invModXn c o FUEL revq (6 * n) with
+  | none => none
+  | some qinv =>
+    if !(o.eq (revq.getD 0 o.zero) o.one) then none          -- assert!(revq[0] == zn.one())
+    else
+      match chunks a.length n a with
+      | [] => none                                         -- achunks.next().unwrap()
+      | c0 :: cs =>
+        match fromRoots c o c0 with
+        | none => none
+        | some p0 =>
+          match reduceTop o n p0 q with
+          | none => none
+          | some pm0 =>
+            match cs.foldlM (barrettStep c o n q qinv.reverse) pm0 with
+            | none => none
+            | some pmodq => multiEvalTree c o pmodq tree
+
 /-- `Poly::roots_eval(zn, a, b)`: the values of `∏ (x - a_i)` at the points `b_j` -/
 def rootsEval (o : Ops α) (a b : List α) : Option (List α) :=
   let c := Ctx.new b.length
@@ -185,47 +236,7 @@ def rootsEval (o : Ops α) (a b : List α) : Option (List α) :=
           match fromRoots c o a with
           | none => none
           | some p => multiEvalTree c o p tree
-        else
-          -- ∏ (x - a_i) modulo Q = ∏ (x - b_j), chunk by chunk, with a precomputed inverse of rev(Q)
-          let q := top ++ [o.one]
-          let revq := (List.range (n + 1)).map fun i => if i < n then q.getD (n - i) o.zero else o.zero
-          match invModXn c o FUEL revq (6 * n) with
-          | none => none
-          | some qinv =>
-            if !(o.eq (revq.getD 0 o.zero) o.one) then none          -- assert!(revq[0] == zn.one())
-            else
-              let qinvr := qinv.reverse
-              match chunks a.length n a with
-              | [] => none                                         -- achunks.next().unwrap()
-              | c0 :: cs =>
-                match fromRoots c o c0 with
-                | none => none
-                | some p0 =>
-                  match reduceTop o n p0 q with
-                  | none => none
-                  | some pm0 =>
-                    match cs.foldlM (fun (pmodq : List α) chk =>
-                        match fromRoots c o chk with
-                        | none => none
-                        | some pi0 =>
-                          match reduceTop o n pi0 q with
-                          | none => none
-                          | some pic =>
-                            match longmul c o (2 * n) (6 * n) pic pmodq with
-                            | none => none
-                            | some pp =>
-                              match longmul c o (2 * n) (6 * n) (pp.drop n) (qinvr.drop 1) with
-                              | none => none
-                              | some quo =>
-                                match longmul c o (2 * n) (6 * n) ((quo.drop (n - 1)).take (n - 1)) q with
-                                | none => none
-                                | some pq =>
-                                  -- debug_assert!(pp[n..] == pq[n..])
-                                  if !((List.range n).all fun i =>
-                                      o.eq (pp.getD (n + i) o.zero) (pq.getD (n + i) o.zero)) then none
-                                  else zipOp o.sub (pp.take n) (pq.take n)) pm0 with
-                    | none => none
-                    | some pmodq => multiEvalTree c o pmodq tree
+        else rootsEvalLong c o tree top a
       match vals with
       | none => none
       | some vs => if vs.length < b.length then none else some (vs.take b.length)
